@@ -121,7 +121,7 @@ seq_t dtw_distance{{ suffix }}{{ suffix2 }}(seq_t *s1, idx_t l1,
         dtw[j] = INFINITY;
     }
     // Deal with psi-relaxation in first row
-    for (i=0; i<settings->psi_2b + 1; i++) {
+    for (i=0; i<MIN(settings->psi_2b + 1, length); i++) {
         dtw[i] = 0;
     }
     idx_t skip = 0;
@@ -282,7 +282,7 @@ seq_t dtw_distance{{ suffix }}{{ suffix2 }}(seq_t *s1, idx_t l1,
     // Deal with psi-relaxation in the last row
     if (settings->psi_1e != 0 || settings->psi_2e != 0) {
         if (settings->psi_2e != 0) {
-            for (i=l2 - skip - settings->psi_2e; i<l2 - skip + 1; i++) { // iterate over vci
+            for (i=MAX(0, l2 - skip - settings->psi_2e); i<l2 - skip + 1; i++) { // iterate over vci
                 if (dtw[i1*length + i] < psi_shortest) {
                     psi_shortest = dtw[i1*length + i];
                 }
